@@ -607,3 +607,17 @@ package tchannel
 //@   label frame-not-handled-locally-stays-with-the-caller
 //@   ensures !shouldRelease ==> own(old(cr.Frame)) == 1
 //@   property C12
+
+// The per-call watcher goroutine of dispatchInbound (it waits for the call's
+// context or the exchange's error latch) is NOT the holder of the call's frames:
+// the goroutine that runs the handler is, and may still be reading arguments out
+// of them when the watcher wakes up. The watcher therefore never gives a
+// fragment or a frame back.
+//@ closure (c *Connection) dispatchInbound 1
+//@   nosafety
+//@   modifies all
+//@   label watcher-never-gives-back-what-the-handler-goroutine-holds
+//@   atcall releasePreviousFragment false
+//@   atcall done false
+//@   atcall Release false
+//@   property C12
